@@ -205,7 +205,7 @@ def jobs(tier):
             if m == 0:
                 content_stub.add(E('(!vf_exc.pending && !RET) ==> ITER_UNCHANGED(in)', 'stub'))
             j = Job(rname('rs', a, m, tr), grp, rname('rs', a, m, tr), con, ('C16', 'C02', 'C03'),
-                    stubs=[(r'^bool tao::pegtl::internal::raw_string_open<.*>::match<', open_stub), (r'^bool tao::pegtl::internal::raw_string_until<.*>::match<', content_stub)] + g_pos.pos_stubs(),
+                    stubs=[(r'^bool tao::pegtl::internal::raw_string_open<.*>::match<', open_stub), (r'^bool tao::pegtl::internal::raw_string_until<.*>::match<', (lambda fi, cs=content_stub: cs if fi.get('may_throw') else Contract(*(cs.clauses + [E('vf_exc.pending == 0', 'stub')]))))] + g_pos.pos_stubs(),   # the lowering found that this instantiation cannot throw: then neither may its stub
                     prelude=comb_prelude(tr) + 'int g_st; size_t g_ms, g_after_open, g_close;\n' + g_pos.PRE_STUB,
                     harness=comb_harness(it, tr, 'w_ret = $ENTRY(&in)').replace('vf_exc.pending = 0;', 'vf_exc.pending = 0; g_st = 0;'),
                     expect_fail_canary=('canary_exit',), desc='raw_string<[,=,]>::match apply=%d rewind=%d on memory_input<%s>' % (a, m, tr))
